@@ -140,7 +140,7 @@ fn op_level(op: &str) -> &'static str {
 /// where two canonical trees first differ: `expected-head got-head`, binary operators reduced to their
 /// precedence level and everything that is not an operator node to `operand`, so that one
 /// precedence/associativity defect is one class
-fn tree_diff_key(a: &str, b: &str) -> String {
+pub fn tree_diff_key(a: &str, b: &str) -> String {
 	let pa: Vec<&str> = a.split(' ').collect();
 	let pb: Vec<&str> = b.split(' ').collect();
 	let mut i = 0;
@@ -345,7 +345,7 @@ fn part_gen(shard: &Shard, journal: &Journal, rep: &mut Report) {
 // --- literal decoding -------------------------------------------------------------------------
 
 /// items of the escape alphabet: (source inside double quotes, source inside single quotes, decoded)
-const ESC: &[(&str, &str)] = &[
+pub const ESC: &[(&str, &str)] = &[
 	("a", "a"),
 	("\\n", "\n"),
 	("\\t", "\t"),
